@@ -1,15 +1,189 @@
 package main
 
 import (
+	"flag"
 	"fmt"
-	"golang.org/x/tools/go/packages"
+	"go/types"
+	"os"
+	"sort"
+	"strings"
 )
 
-func main() {
-	cfg := &packages.Config{Mode: packages.LoadAllSyntax, Dir: "/repo", BuildFlags: []string{"-tags=verif"}}
-	pkgs, err := packages.Load(cfg, ".")
-	fmt.Println(len(pkgs), err)
-	for _, p := range pkgs {
-		fmt.Println(p.PkgPath, len(p.Syntax), p.Errors)
+type World struct {
+	prog *Program
+	smt  *SMT
+	eff  *Effects
+	res  []*FuncResult
+}
+
+func loadWorld(repo string) (*World, error) {
+	os.MkdirAll("/verif/out", 0o755)
+	prog, err := LoadProgram(repo)
+	if err != nil {
+		return nil, err
+	}
+	smt := NewSMT(prog.Pkg)
+	eff := NewEffects(prog, smt)
+	return &World{prog: prog, smt: smt, eff: eff}, nil
+}
+
+// instantiations of a generic function found in the package
+func (w *World) instantiations(key string) []map[*types.TypeParam]types.Type {
+	fd := w.prog.Funcs[key]
+	obj, _ := w.prog.Info.Defs[fd.Name].(*types.Func)
+	if obj == nil {
+		return []map[*types.TypeParam]types.Type{nil}
+	}
+	sig := obj.Type().(*types.Signature)
+	tps := sig.TypeParams()
+	if tps == nil || tps.Len() == 0 {
+		return []map[*types.TypeParam]types.Type{nil}
+	}
+	seen := map[string]bool{}
+	var out []map[*types.TypeParam]types.Type
+	for id, inst := range w.prog.Info.Instances {
+		if w.prog.Info.Uses[id] == nil {
+			continue
+		}
+		if f, ok := w.prog.Info.Uses[id].(*types.Func); !ok || f.Origin() != obj {
+			continue
+		}
+		concrete := true
+		var names []string
+		m := map[*types.TypeParam]types.Type{}
+		for i := 0; i < tps.Len() && i < inst.TypeArgs.Len(); i++ {
+			t := inst.TypeArgs.At(i)
+			if _, isTP := t.(*types.TypeParam); isTP {
+				concrete = false
+			}
+			m[tps.At(i)] = t
+			names = append(names, types.TypeString(t, func(*types.Package) string { return "" }))
+		}
+		if !concrete {
+			continue
+		}
+		k := strings.Join(names, ",")
+		if seen[k] {
+			continue
+		}
+		seen[k] = true
+		out = append(out, m)
+	}
+	if len(out) == 0 {
+		return []map[*types.TypeParam]types.Type{nil}
+	}
+	sort.Slice(out, func(i, j int) bool { return instLabel(out[i]) < instLabel(out[j]) })
+	return out
+}
+
+func instLabel(m map[*types.TypeParam]types.Type) string {
+	if len(m) == 0 {
+		return ""
+	}
+	var ns []string
+	for _, t := range m {
+		ns = append(ns, types.TypeString(t, func(*types.Package) string { return "" }))
+	}
+	sort.Strings(ns)
+	return "[" + strings.Join(ns, ",") + "]"
+}
+
+// generate obligations for the selected contracts
+func (w *World) generate(sel func(fc *FuncContract) bool) {
+	for _, fc := range w.prog.C.Funcs {
+		if !sel(fc) || fc.Trusted {
+			continue
+		}
+		for _, inst := range w.instantiations(fc.Name) {
+			name := fc.Key() + instLabel(inst)
+			r := VerifyFunc(w.prog, w.smt, w.eff, fc.Name, fc, inst, name)
+			w.res = append(w.res, r)
+		}
 	}
 }
+
+func main() {
+	if len(os.Args) < 2 {
+		fmt.Println("usage: govc verify|check|frame|dump ...")
+		os.Exit(2)
+	}
+	switch os.Args[1] {
+	case "verify":
+		cmdVerify(os.Args[2:])
+	case "check":
+		cmdCheck(os.Args[2:])
+	default:
+		fmt.Println("unknown command", os.Args[1])
+		os.Exit(2)
+	}
+}
+
+func cmdVerify(args []string) {
+	fs := flag.NewFlagSet("verify", flag.ExitOnError)
+	fn := fs.String("func", "", "only this function (contract key)")
+	prop := fs.String("prop", "", "only this property")
+	repo := fs.String("repo", "/repo", "repository")
+	timeout := fs.Int("timeout", 20, "solver timeout (s)")
+	verbose := fs.Bool("v", false, "list all obligations")
+	dumpFailed := fs.Bool("show", false, "print failing SMT files' names")
+	fs.Parse(args)
+	w, err := loadWorld(*repo)
+	if err != nil {
+		fmt.Println("LOAD ERROR:", err)
+		os.Exit(2)
+	}
+	w.generate(func(fc *FuncContract) bool {
+		if *fn != "" && fc.Key() != *fn && fc.Name != *fn {
+			return false
+		}
+		if *prop != "" {
+			ok := false
+			for _, p := range fc.Props {
+				if p == *prop {
+					ok = true
+				}
+			}
+			return ok
+		}
+		return true
+	})
+	var all []*VC
+	for _, r := range w.res {
+		all = append(all, r.VCs...)
+	}
+	prelude := w.smt.Prelude()
+	solveAll(all, prelude, "/verif/out/smt", *timeout, 0, 16, false)
+	nOK, nBad := 0, 0
+	for _, r := range w.res {
+		fmt.Printf("== %s  (%d obligations) inlined=%v tags=%v\n", r.Inst, len(r.VCs), r.Inlined, r.Tags)
+		for _, o := range r.Outside {
+			fmt.Println("   OUTSIDE-SUBSET:", o)
+		}
+		for _, vc := range r.VCs {
+			ok := vc.Status == "unsat"
+			if vc.MustFail {
+				ok = vc.Status != "unsat"
+			}
+			if ok {
+				nOK++
+			} else {
+				nBad++
+			}
+			if !ok || *verbose {
+				mark := "ok  "
+				if !ok {
+					mark = "FAIL"
+				}
+				fmt.Printf("   %s %-70s %-8s %-7s %.2fs %s\n", mark, vc.Name, vc.Status, vc.Solver, vc.TimeS, vc.Pos)
+				if !ok && *dumpFailed {
+					fmt.Println("        ", vcFileName("/verif/out/smt", vc))
+				}
+			}
+		}
+	}
+	fmt.Printf("discharged %d, failed %d\n", nOK, nBad)
+	if nBad > 0 {
+		os.Exit(1)
+	}
+}
+
